@@ -39,6 +39,19 @@ def is_const(v):
     return not isinstance(v.t, z3.ExprRef)
 
 
+def _const_fraction(t):
+    """Fraction value of a z3 numeral (possibly ToReal of an int numeral), else None."""
+    try:
+        t = z3.simplify(t)
+        if z3.is_int_value(t):
+            return Fraction(t.as_long())
+        if z3.is_rational_value(t):
+            return Fraction(t.numerator_as_long(), t.denominator_as_long())
+    except Exception:
+        pass
+    return None
+
+
 class Domain:
     name = "?"
 
@@ -156,6 +169,17 @@ class RLX(Domain):
         if a.kind == "int" and b.kind == "int" and op == "%":
             return V("int", a.t % b.t)
         fa, fb = self.to_float(a), self.to_float(b)
+        # both operands numerically known: the rounded result is known too (computed with real binary64)
+        ca, cb = _const_fraction(fa.t), _const_fraction(fb.t)
+        if ca is not None and cb is not None and op in "+-*/" and not (op == "/" and cb == 0):
+            try:
+                xa, xb = float(ca), float(cb)
+                if Fraction(xa) == ca and Fraction(xb) == cb:
+                    rv = {"+": xa + xb, "-": xa - xb, "*": xa * xb, "/": xa / xb if op == "/" else 0.0}[op]
+                    fr = Fraction(rv)
+                    return V("float", z3.RealVal(f"{fr.numerator}/{fr.denominator}"))
+            except (OverflowError, ZeroDivisionError):
+                pass
         if op == "+":
             exact = fa.t + fb.t
         elif op == "-":
@@ -376,7 +400,14 @@ def ev(node, env):
         raise Unsupported("unary op")
     if isinstance(node, ast.BoolOp):
         vals = [ev(v, env) for v in node.values]
-        return d.b_and(vals) if isinstance(node.op, ast.And) else d.b_or(vals)
+        if all(v.kind == "bool" for v in vals):
+            return d.b_and(vals) if isinstance(node.op, ast.And) else d.b_or(vals)
+        # Python value semantics: `a or b` is a if a is truthy else b; `a and b` is b if a is truthy else a
+        acc = vals[-1]
+        for v in reversed(vals[:-1]):
+            truthy = d.cmp("!=", v, 0) if v.kind != "bool" else v
+            acc = d.ite(truthy, v, acc) if isinstance(node.op, ast.Or) else d.ite(truthy, acc, v)
+        return acc
     if isinstance(node, ast.Compare):
         left = ev(node.left, env)
         parts = []
